@@ -213,8 +213,12 @@ class CrashFS(object):
         if "w" in mode or "a" in mode or "+" in mode:
             if fs.boundary("open-for-write %s" % os.path.basename(path)):
                 raise Crash()
-            f = open(path, mode, *a, **k)
+            return fs.wrap(open(path, mode, *a, **k))
+        return open(path, mode, *a, **k)
 
+    def wrap(self, f):
+        fs = self
+        if True:
             class F(object):
                 def write(self_, data):
                     if fs.boundary("write %d" % len(data)):
@@ -239,7 +243,6 @@ class CrashFS(object):
                 def __getattr__(self_, n):
                     return getattr(f, n)
             return F()
-        return open(path, mode, *a, **k)
 
 
 class OsProxy(object):
@@ -257,6 +260,18 @@ class OsProxy(object):
         if self._fs.boundary("rename"):
             raise Crash()
         return os.rename(a, b)
+
+    def open(self, path, flags, *a, **k):
+        if flags & (os.O_WRONLY | os.O_RDWR):
+            if self._fs.boundary("os.open-for-write %s" % os.path.basename(path)):
+                raise Crash()
+        return os.open(path, flags, *a, **k)
+
+    def fdopen(self, fd, mode="r", *a, **k):
+        f = os.fdopen(fd, mode, *a, **k)
+        if "w" in mode or "a" in mode or "+" in mode:
+            return self._fs.wrap(f)
+        return f
 
     def __getattr__(self, n):
         return getattr(os, n)
@@ -306,9 +321,20 @@ def h_crash(ctx):
         ok_new = loaded is not None and not _config_eq(new, loaded, False)
         ok_old = had_old and loaded is not None and not _config_eq(old, loaded, False)
         if had_old:
-            return [("crash before boundary %s (prefix %.2f): profile loads as previous or new configuration (%s)" % (crash_at, frac, err or ("neither" if loaded is not None else "nothing loaded")),
-                     ok_new or ok_old)]
-        return [("crash during first save: profile loads as new configuration or not at all, never a broken one (%s)" % (err,), err is None and (loaded is None or ok_new))]
+            obs = [("crash before boundary %s (prefix %.2f): profile loads as previous or new configuration (%s)" % (crash_at, frac, err or ("neither" if loaded is not None else "nothing loaded")),
+                    ok_new or ok_old)]
+        else:
+            obs = [("crash during first save: profile loads as new configuration or not at all, never a broken one (%s)" % (err,), err is None and (loaded is None or ok_new))]
+        # the restarted process saves again (a shorter configuration): whatever the crash left behind must not leak into it
+        third = Config(phone="4915901234567", cc="49")
+        try:
+            ConfigManager().save(prof, third)
+            loaded3, err3 = ConfigManager().load(prof), None
+        except Exception as e:
+            loaded3, err3 = None, e
+        bad3 = _config_eq(third, loaded3, False)
+        obs.append(("after the crash (boundary %s, prefix %.2f) a later save is loaded back intact (%s)" % (crash_at, frac, err3 or bad3), not bad3))
+        return obs
 
 
 def finding_key(case, label, values, where):
